@@ -3,11 +3,11 @@ import json, os
 HERE = os.path.dirname(os.path.abspath(__file__))
 CHECKS = {
  "C01": ("exploration", "differential PBT (Hypothesis) vs itertools/heapq/builtins, identity-sensitive items",
-         "Generated inputs/parameters per iterator tool compared item-by-item (object identity via uids) and ending-by-ending with the stdlib namesake; finds tie-order, off-by-one, strictness and fill bugs; no absence proof.",
+         "Generated inputs/parameters per iterator tool compared item-by-item (object identity via uids) and ending-by-ending with the stdlib namesake; finds tie-order, off-by-one, strictness and fill bugs; no absence proof. Also: native containers (range, str, bytes, views, sets, deques, arrays, str/tuple subclasses, the builtins' one-shot iterators) as sources through 37 tool/parameter combinations; two instances alive at once, advanced alternately; sources re-iterated (aiter again), mutated while read, with __aiter__ = None, under-estimating length hints, awaitable as well as iterable.",
          "CPython 3.12 stdlib is the oracle; inputs bounded (<=8 items x <=4 sources quick); no NaN/partial orders", "4/C01"),
 }
 CHECKS["C02"] = ("exploration", "differential PBT (Hypothesis) vs builtins/functools/heapq plus argument-mutation oracle",
-  "Generated inputs (ties, empty, mixed numerics, unorderable/unhashable), list/iterator/async input, key/default/start/initial/n combinations compared with the stdlib result (identity of selected Items, exception type); every argument object must be structurally unchanged afterwards.",
+  "Generated inputs (ties, empty, mixed numerics, unorderable/unhashable), list/iterator/async input, key/default/start/initial/n combinations compared with the stdlib result (identity of selected Items, exception type); every argument object must be structurally unchanged afterwards. Also: native containers as sources; parameters that are the very object of an item; callables that grow the list being read; NaN (partial orders) for sorted/min/max.",
   "CPython 3.12 stdlib is the oracle; dyadic floats (exact sums); no NaN/partial orders", "4/C02")
 CHECKS["C05"] = ("exploration", "differential trace PBT: interleaved pull/call/yield event logs vs the stdlib, instrumented doubles",
   "Full interleaved event log (pulls, end-of-source detections, calls with argument identities, yields) of each asynchronous tool equals the stdlib counterpart's for generated inputs and consumer step counts; detects read-ahead, over/under-consumption and eager evaluation.",
@@ -19,49 +19,49 @@ CHECKS["C03"] = ("exploration", "metamorphic PBT: same case under generated sync
   "Each generated case (optionally with one planned fault) is re-run under generated assignments of 6 iterable flavours and 5 callable flavours; items, result and exception must equal the all-synchronous run; every library callable must return an awaitable / async iterator / async context manager.",
   "baseline is the library's own all-sync run (agreement with the stdlib is C01/C02); 6 assignments per case in quick", "4/C03")
 CHECKS["C04"] = ("fault_enumeration", "exhaustive close-position / single-fault / athrow enumeration per generated case; release invariant on instrumented sources; tee and groupby close histories",
-  "Every generated case is expanded to all numbers of items taken before close, exhaustion, all single fault positions and consumer athrow after every prefix, in a loop with and without asyncgen hooks, with sources whose cleanup suspends; afterwards every async iterator passed in must be closed or exhausted and aclose must not raise; tee/groupby advance-close histories check 'source released iff last child done'.",
+  "Every generated case is expanded to all numbers of items taken before close, exhaustion, all single fault positions and consumer athrow after every prefix, in a loop with and without asyncgen hooks, with sources whose cleanup suspends; afterwards every async iterator passed in must be closed or exhausted and aclose must not raise; tee/groupby advance-close histories check 'source released iff last child done'. Also: a snapshot of the started sources at the moment a raise/exhaustion completes (before any later aclose); 600-2100 owned iterators at once; any_iter as a tool.",
   "released is observed on the doubles before any GC; raise path is judged after the owner closed the handle; bounded inputs", "4/C04")
 CHECKS["C18"] = ("fault_enumeration", "exhaustive cancellation-point enumeration per generated operation on a hand-driven event loop",
-  "For each generated operation (all tools/aggregations with suspending sources and callables, tee+lock, lru_cache, cached_property+lock, ExitStack, scoped_iter blocks) a Cancel object is thrown at EVERY suspension point 1..N in separate runs; that object must propagate, sources be released, locks free and balanced, exits run once with it, caches consistent and usable.",
-  "one cancellation per run; cleanup itself does not suspend; suspension points are those of user awaitables (C17 shows there are no others)", "4/C18")
+  "For each generated operation (all tools/aggregations with suspending sources and callables, tee+lock, lru_cache, cached_property+lock, ExitStack, scoped_iter blocks) a Cancel object is thrown at EVERY suspension point 1..N in separate runs; that object must propagate, sources be released, locks free and balanced, exits run once with it, caches consistent and usable. Also: sources whose aclose() suspends (cancellation inside a cleanup) and, on top of that, another source whose aclose() fails.",
+  "one cancellation per run (a failing cleanup may come on top); suspension points are those of user awaitables (C17 shows there are no others)", "4/C18")
 CHECKS["C20"] = ("exploration", "weak-reference retention PBT over long lazily generated streams",
-  "For every streaming tool and single-pass aggregation, groupby and tee (with generated child lag / early close patterns) the number of live source items, counted through weak references at every 10th consumer step, stays below window + 3*sources + 3 for stream lengths 50-400 (thorough: to 2000): the bound is independent of the length.",
+  "For every streaming tool and single-pass aggregation, groupby and tee (with generated child lag / early close patterns) the number of live source items, counted through weak references at every 10th consumer step, stays below window + 3*sources + 3 for stream lengths 50-400 (thorough: to 2000): the bound is independent of the length. Also: sized lazy datasets as sources, windows of 255-300 with streams of 1500-2500 items.",
   "CPython reference counting + gc.collect(); documented accumulators excluded", "4/C20")
 CHECKS["C07"] = ("exploration", "model-based history PBT: generated borrow/close/tool/drop histories vs a shared synchronous iterator",
   "Generated operation histories (next, asend, close, close via iter, hand to any of 26 tools, drop+gc, borrow/re-borrow) over four kinds of underlying iterator; after every operation the underlying is not closed and every item obtained anywhere is exactly next(model); closed lineages yield nothing; the owner finally drains exactly the rest.",
   "handle state after a tool used it is 'unknown' (either stop or next(model) accepted); athrow through a handle not generated", "4/C07")
 CHECKS["C08"] = ("fault_enumeration", "generated scoped_iter block programs vs a shared synchronous iterator; every cancellation point and generated raise positions",
-  "Generated nested scoped_iter blocks (depth 1-3) applying any of 26 tools to the scoped handles; items must be next(model), the underlying is never closed inside and exactly once after the outermost exit, inner handles die with their scope only; exit by fall-through, by an exception at a generated position, and by cancellation at EVERY suspension point of the run.",
+  "Generated nested scoped_iter blocks (depth 1-3) applying any of 26 tools to the scoped handles; items must be next(model), the underlying is never closed inside and exactly once after the outermost exit, inner handles die with their scope only; exit by fall-through, by an exception at a generated position, and by cancellation at EVERY suspension point of the run. Also: re-iterable, proxied and falsy underlying objects, a failing underlying aclose (still exactly one call), entering the used-up context again, sources that cannot be closed at all (in-block semantics only).",
   "iterators without aclose (documented neutral context) and athrow through the handle are not generated", "4/C08")
 CHECKS["C09"] = ("exploration", "schedule-driven PBT on a harness-owned event loop: generated configurations x generated schedules; exhaustive schedule enumeration for small configurations",
-  "Each tee child runs in its own task; the schedule (which ready task advances) is Hypothesis data; invariants on order, exactly-once fetching, no overlapping source access under a lock, no deadlock, weak-reference retention and 'source closed iff all children done' are checked after EVERY scheduler step; early closes from j=0 and one cancellation at any suspension are generated; all schedules of the 2-children configurations are enumerated in quick, 3-children in thorough.",
+  "Each tee child runs in its own task; the schedule (which ready task advances) is Hypothesis data; invariants on order, exactly-once fetching, no overlapping source access under a lock, no deadlock, weak-reference retention and 'source closed iff all children done' are checked after EVERY scheduler step; early closes from j=0 and one cancellation at any suspension are generated; all schedules of the 2-children configurations are enumerated in quick, 3-children in thorough. Also: the exact set of live items by index (not only their number), children indexed late, sources without aclose, the lock shared with readers outside the tee.",
   "cooperative tasks only; granularity = suspension points of user awaitables (complete for this library, see C17)", "4/C09")
 CHECKS["C10"] = ("exploration", "model-based history PBT vs functools.lru_cache and an explicit LRU model (for cache_discard)",
-  "Generated call/clear/info/discard histories (<= 40 operations) per configuration (maxsize incl. None/negative/0/default, typed, bare decorator, cache(), function/method/classmethod/staticmethod on two instances) are mirrored on functools.lru_cache; results, exception types, invocation log, cache_info and cache_parameters must agree after every operation; a small LRU model, itself cross-checked against functools on every discard-free prefix, is the oracle after cache_discard.",
+  "Generated call/clear/info/discard histories (<= 40 operations) per configuration (maxsize incl. None/negative/0/default, typed, bare decorator, cache(), function/method/classmethod/staticmethod on two instances) are mirrored on functools.lru_cache; results, exception types, invocation log, cache_info and cache_parameters must agree after every operation; a small LRU model, itself cross-checked against functools on every discard-free prefix, is the oracle after cache_discard. Also: one decorator object for several functions, re-entrant calls (a body clearing its cache / calling the cache again), hash-colliding call patterns, arguments whose __class__ lies, callable objects and eager plain defs as wrapped callables, unhashable instances.",
   "functools._make_key defines pattern identity; sequential awaits only", "4/C10")
 CHECKS["C16"] = ("exploration", "model-based history PBT vs itertools.groupby (advance groupby / advance any previously returned group)",
-  "Generated items (equal-yet-distinguishable keys), key absent/sync/async, four source flavours and histories of up to 15 advance operations on the groupby and on any previously returned group handle are mirrored on itertools.groupby; key, item identity or stop must agree after every operation.",
+  "Generated items (equal-yet-distinguishable keys), key absent/sync/async, four source flavours and histories of up to 15 advance operations on the groupby and on any previously returned group handle are mirrored on itertools.groupby; key, item identity or stop must agree after every operation. Also: keys whose comparison fails (the history goes on), aiter() again on groupby and groups, groups that outlive the groupby object, key failures during the skip scan (via C06).",
   "reflexive key equality; CPython 3.12 itertools.groupby is the oracle", "4/C16")
 CHECKS["C13"] = ("exploration", "exhaustive enumeration of the 864-program table, differential vs contextlib.asynccontextmanager; Hypothesis variations on top",
-  "All 3x12x3x8 generator programs x block outcomes of the quantifier (each with and without suspensions inside the generator) are run through contextmanager and through contextlib.asynccontextmanager: bound value, generator event log and outcome class (block's object / planned other / suppressed / protocol RuntimeError) must agree; the GeneratorExit rows are compared with an independent model of the documented deviation.",
+  "All 3x12x3x8 generator programs x block outcomes of the quantifier (each with and without suspensions inside the generator) are run through contextmanager and through contextlib.asynccontextmanager: bound value, generator event log and outcome class (block's object / planned other / suppressed / protocol RuntimeError) must agree; the GeneratorExit rows are compared with an independent model of the documented deviation. Also: generator functions given as partial / callable object / bound method / forwarding (non-native) generators, coroutine functions as factory arguments, GeneratorExit subclasses, re-use of a used-up manager.",
   "CPython 3.12 contextlib is the oracle; exceptions compared by role, not message", "4/C13")
 CHECKS["C14"] = ("exploration", "differential program PBT vs genuinely nested async-with statements (complete for <= 2 entries) plus run-once histories; hang watchdog",
-  "ExitStack programs (7 entry kinds x 5-6 behaviours x block outcome; every program with <= 2 entries enumerated, 3-4 entries sampled) are compared with the same entries written as nested with statements: order of exits, the exception object each receives, callback arguments, final outcome. Generated register/aclose/pop_all/leave/unwind-again histories check that every registered exit runs exactly once overall. Non-termination is detected by a per-case watchdog with isolated re-run.",
+  "ExitStack programs (7 entry kinds x 5-6 behaviours x block outcome; every program with <= 2 entries enumerated, 3-4 entries sampled) are compared with the same entries written as nested with statements: order of exits, the exception object each receives, callback arguments, final outcome. Generated register/aclose/pop_all/leave/unwind-again histories check that every registered exit runs exactly once overall. Non-termination is detected by a per-case watchdog with isolated re-run. Also: LIFO order by registration time across pop_all, exits that close their own stack, managers that register on the stack while they are entered, stacks pushed onto stacks, awaitable context values, callbacks without arguments.",
   "__context__ chains are not compared; exits never re-raise an older exception of the chain", "4/C14")
 CHECKS["C11"] = ("exploration", "schedule-driven PBT (generated task programs x schedules, one cancellation) plus exhaustive schedules for 2 tasks x 2 calls; existential LRU-model oracle",
   "Tasks issuing calls / cache_clear / cache_discard over 1-3 keys against a suspending wrapped function run under generated schedules with an optional failing invocation and one cancellation; currsize <= maxsize after every scheduler step, values belong to their key, hits+misses == calls and misses == invocations since the last clear, and a sequential probe history must be explainable by the C10 LRU model from some subset of the successfully completed keys. All schedules of 2 tasks x 2 calls are enumerated.",
   "cooperative tasks; wrapped function tolerates overlap; probe oracle is the sequential model of C10", "4/C11")
 CHECKS["C12"] = ("exploration", "model-based sequential histories plus schedule-driven PBT (exhaustive schedules for 2-3 tasks) with lock doubles, deletion, failure and cancellation",
-  "Sequential await / take-placeholder / del / failing-getter histories on two instances against an absent|value model (getter runs iff absent, identity-stable value); concurrent awaiters under generated and enumerated schedules: every awaiter gets a returned object; with a lock exactly one run returns, runs never overlap, all share the value; locks free and balanced after cancelling the holder; later accesses served from the cache.",
+  "Sequential await / take-placeholder / del / failing-getter histories on two instances against an absent|value model (getter runs iff absent, identity-stable value); concurrent awaiters under generated and enumerated schedules: every awaiter gets a returned object; with a lock exactly one run returns, runs never overlap, all share the value; locks free and balanced after cancelling the holder; later accesses served from the cache. Also: None / non-comparable / awaitable values, falsy and frozen instances, rebound __dict__, partial and bound-method getters, the attribute used as a set member.",
   "with a deleting task only recomputation is asserted; without a lock the documented multiple runs are accepted", "4/C12")
 CHECKS["C15"] = ("exploration", "schedule-driven PBT of decorated calls (generated and exhaustive schedules), per-call pairing invariants plus differential vs contextlib decorators",
-  "Coroutine functions decorated with contextmanager-made managers and ContextDecorator subclasses are called sequentially and concurrently under generated schedules (all schedules for 2 tasks in small configurations) with suspensions in enter/body/exit, raising bodies, suppression and one cancellation; per call: one enter, body, one exit in order, the exit receives the body's exception object, result/exception semantics, a distinct generator per call; outcomes equal those of contextlib.asynccontextmanager / AsyncContextDecorator under the same schedule.",
+  "Coroutine functions decorated with contextmanager-made managers and ContextDecorator subclasses are called sequentially and concurrently under generated schedules (all schedules for 2 tasks in small configurations) with suspensions in enter/body/exit, raising bodies, suppression and one cancellation; per call: one enter, body, one exit in order, the exit receives the body's exception object, result/exception semantics, a distinct generator per call; outcomes equal those of contextlib.asynccontextmanager / AsyncContextDecorator under the same schedule. Also: managers with a state-dependent _recreate_cm, forwarding generators, one manager object decorating a function several times.",
   "class managers are written concurrency-safe (documented precondition); CPython 3.12 contextlib is the reference", "4/C15")
 CHECKS["C17"] = ("exploration", "hand-driven token protocol (send and throw at every suspension), zero-suspension runs for synchronous arguments, asyncio loop traps in-process and in a fresh subprocess",
-  "Every operation is driven with send/throw by hand: only tokens of the doubles may reach the loop, each double gets back exactly its reply, an exception thrown at ANY suspension reaches the awaitable suspended there, operations complete; all-synchronous arguments give zero suspensions for every tool, aggregation and adapter; asyncio's loop accessors / Lock / sleep / Future are replaced by recording traps during all runs and before import in a subprocess battery of generated operations.",
+  "Every operation is driven with send/throw by hand: only tokens of the doubles may reach the loop, each double gets back exactly its reply, an exception thrown at ANY suspension reaches the awaitable suspended there, operations complete; all-synchronous arguments give zero suspensions for every tool, aggregation and adapter; asyncio's loop accessors / Lock / sleep / Future are replaced by recording traps during all runs and before import in a subprocess battery of generated operations. Also: one lru_cache history whose segments run without a loop, under fresh asyncio.run()s and in another thread; the asynctools adapters under a running asyncio loop; sources whose __anext__/aclose are types.coroutine functions.",
   "'every event loop' approximated by a hand-driven loop and the no-asyncio subprocess; trio/asyncio themselves are not run", "4/C17")
 CHECKS["C19"] = ("exploration", "exhaustive shape x length x steps grid for any_iter / await_each (identity and await-order oracle) plus Hypothesis cases for apply and sync",
-  "All combinations of outer {plain, coroutine, awaitable object} x {list, iterator, async iterator} x item kinds {plain, coroutine, awaitable object, suspending} x lengths 0-6 x consumer steps are enumerated: items are the plain list's objects, awaitable k is awaited only after item k was requested; apply is compared with f(*values, **values) including await order; sync wrappers are called repeatedly with mixed plain / awaitable / raising results: never raise when called, same result or exception object when awaited, coroutine functions returned unchanged.",
+  "All combinations of outer {plain, coroutine, awaitable object} x {list, iterator, async iterator} x item kinds {plain, coroutine, awaitable object, suspending} x lengths 0-6 x consumer steps are enumerated: items are the plain list's objects, awaitable k is awaited only after item k was requested; apply is compared with f(*values, **values) including await order; sync wrappers are called repeatedly with mixed plain / awaitable / raising results: never raise when called, same result or exception object when awaited, coroutine functions returned unchanged. Also: plain generator objects and concurrent.futures.Future as data, dual-protocol and observed containers (nothing is iterated before the first request), async generator functions for sync(), the source behind an awaitable outer is closed with the adapter.",
   "awaitables awaited at most once; identity comparison of items", "4/C19")
 REASONS = {}
 props = [json.loads(l)["id"] for l in open(os.path.join(HERE, "properties.jsonl"))]
